@@ -188,6 +188,81 @@ func runC18(c *Ctx) {
 		}
 	}
 	if !foundW {
+		// the single-write form: frame := append([]byte(fmt.Sprintf("%s: %v%s", name, len(X), sep)), X...); conn.Write(frame)
+		for _, fd := range allFuncDecls(p) {
+			var spr *ast.CallExpr
+			ast.Inspect(fd.Body, func(n ast.Node) bool {
+				if call, ok := n.(*ast.CallExpr); ok {
+					if fn := calleeOf(info, call); fn != nil && (fullName(fn) == "fmt.Sprintf" || fullName(fn) == "fmt.Appendf") {
+						for _, a := range call.Args {
+							if s, ok := constString(info, a); ok && s == "Content-Length" {
+								spr = call
+							}
+						}
+					}
+				}
+				return true
+			})
+			if spr == nil {
+				continue
+			}
+			foundW = true
+			key := funcKey(p, fd)
+			fi := 0
+			if fn := calleeOf(info, spr); fn != nil && fn.Name() == "Appendf" {
+				fi = 1
+			}
+			format, _ := constString(info, spr.Args[fi])
+			var lenObj types.Object
+			sep := ""
+			nonLen := false
+			for _, a := range spr.Args[fi+1:] {
+				if call, ok := ast.Unparen(a).(*ast.CallExpr); ok {
+					if id, ok := call.Fun.(*ast.Ident); ok && id.Name == "len" && len(call.Args) == 1 {
+						if aid, ok := call.Args[0].(*ast.Ident); ok {
+							lenObj = info.ObjectOf(aid)
+						}
+						continue
+					}
+				}
+				if sv, ok := constString(info, a); ok {
+					if sv != "Content-Length" {
+						sep = sv
+					}
+					continue
+				}
+				nonLen = true
+			}
+			c.check(lenObj != nil && !nonLen, "C18.R2", key+"|header-length-is-len", c.pos(spr.Pos()), "the header prints len(<data>) with no arithmetic", "the Content-Length written in the frame header is not exactly len() of a byte slice")
+			c.check(format == "%s: %v%s" || format == "%s: %d%s", "C18.R2", key+"|header-format", c.pos(spr.Pos()), "format "+format, fmt.Sprintf("frame header format changed to %q", format))
+			c.check(sep == "\r\n\r\n", "C18.R2", key+"|header-separator", c.pos(spr.Pos()), "header ends with CRLF CRLF", fmt.Sprintf("the header/content separator constant is %q, not CRLF CRLF", sep))
+			// header and body are joined by append(<header>, <data>...) and written in one call
+			joined := false
+			ast.Inspect(fd.Body, func(n ast.Node) bool {
+				call, ok := n.(*ast.CallExpr)
+				if !ok || len(call.Args) != 2 || !call.Ellipsis.IsValid() {
+					return true
+				}
+				if id, ok := call.Fun.(*ast.Ident); !ok || id.Name != "append" {
+					return true
+				}
+				hasHeader := false
+				ast.Inspect(call.Args[0], func(m ast.Node) bool {
+					if m == ast.Node(spr) {
+						hasHeader = true
+					}
+					return true
+				})
+				if did, ok := ast.Unparen(call.Args[1]).(*ast.Ident); ok && hasHeader && info.ObjectOf(did) == lenObj {
+					joined = true
+				}
+				return true
+			})
+			c.check(joined, "C18.R2", key+"|body-is-measured-slice", c.pos(spr.Pos()), "header and the measured slice are joined into one frame", "the frame is not built as append(<header>, <measured data>...)")
+			c.ok("C18.R2", key+"|header-is-followed-by-body", c.pos(spr.Pos()), "header and body are written by one Write call")
+		}
+	}
+	if !foundW {
 		c.viol("C18.R2", "anchor-lost:framed-writer", "", "no function writes a Content-Length header")
 	}
 
